@@ -134,6 +134,22 @@ def requirement_endings_sweep():
                           edges=[[0, 2]] if n % 2 else [])
             yield sched('s0', [inner, job('j4', 1), job('j5', 2)], edges=[[0, 1], [0, 2]],
                         verbose=verbose)
+        if k == 0:
+            # a job requires a quick job and a nested scheduler that is itself kept waiting
+            # by a slow requirement: the nested scheduler (empty or not, first or second run
+            # of the tree, any first-run mode) has not even begun when the quick job ends
+            for empty in (False, True):
+                for rerun in (None, 'free', 'w1', 'asis'):
+                    for depth in (1, 2):
+                        inner = sched('s1', [] if empty else [job('j2', 1), job('j3', 2)])
+                        if depth == 2:
+                            inner = sched('s2', [inner, job('j7', 1)], edges=[[0, 1]])
+                        top = sched('s0', [job('j1', 3), inner, job('j5', 1), job('j6', 1)],
+                                    edges=[[0, 1], [1, 3], [2, 3]])
+                        if rerun:
+                            top['rerun'] = True
+                            top['rerun_first'] = rerun
+                        yield assign_sched_ids(top)
     return ('a requirement that is a nested scheduler with a raising job: %d exception classes '
             'x message or none x verbose x critical x job class x window' % (len(EXC_NAMES) + 1),
             8, chunk)
@@ -413,6 +429,20 @@ def _all_scheds(spec):
         if m['kind'] == 'sched':
             yield m
             yield from _all_scheds(m)
+
+
+def assign_sched_ids(spec):
+    """number the schedulers of a hand-made tree in pre-order (s0 = top)"""
+    n = [0]
+
+    def rec(sp):
+        if sp['kind'] == 'sched':
+            sp['id'] = 's%d' % n[0]
+            n[0] += 1
+            for m in sp['members']:
+                rec(m)
+    rec(spec)
+    return spec
 
 
 def assign_ids(spec):
